@@ -1659,10 +1659,6 @@ where
                 let mut first = true;
                 let mut stack_idx = self.open_elems.borrow().len() - 1;
                 loop {
-                    if stack_idx == 0 {
-                        return ProcessResult::Done;
-                    }
-
                     let html;
                     let eq;
                     {
@@ -1674,6 +1670,10 @@ where
                     if !first && html {
                         let mode = self.mode.get();
                         return self.step(mode, Token::Tag(tag));
+                    }
+
+                    if stack_idx == 0 {
+                        return ProcessResult::Done;
                     }
 
                     if eq {
